@@ -268,9 +268,7 @@ def r3_canonical_shapes(ctx):
 
 
 def run(ctx):
-    r1_equality_table(ctx)
-    r2_ref_minting(ctx)
-    r3_canonical_shapes(ctx)
+    ctx.run_rules([r1_equality_table, r2_ref_minting, r3_canonical_shapes])
     return (
         "Decides: coverage/symmetry of the values_equal variant-pair table (diagonal explicit, off-diagonal false, all binary representation "
         "pairs compared by content, tuples by canonical shape), single minting site for refs with an advancing counter and unchanged worker-id "
